@@ -427,9 +427,10 @@ class Unit:
                 ct = self.contract_text(s, f, lines)
                 ann = self.loop_annotations(s) if n == target else None
                 if n in replaced:
-                    # body irrelevant when replaced; keep it (goto-instrument needs a definition or declaration)
-                    ann = None
-                text = tr.function_text(f, contract="\n".join(ct) + "\n", loopann=ann)
+                    # replaced by its contract: declaration + contract only (the body is not part of this proof)
+                    text = "%s\n%s;\n" % (tr.signature(f), "\n".join(ct))
+                else:
+                    text = tr.function_text(f, contract="\n".join(ct) + "\n", loopann=ann)
                 ens_lines[n] = (lines, ct)
                 fn_texts.append((n, text))
             else:
